@@ -65,6 +65,7 @@ fn main() {
             "C15" => props::c15::replay(case),
             "C16" => props::c16::replay(case),
             "C18" => props::c18::replay(case),
+            "C20" => props::c20::replay(case),
             _ => {
                 eprintln!("no replay for {id}");
                 2
@@ -90,6 +91,7 @@ fn main() {
         "C15" => props::c15::run(tier),
         "C16" => props::c16::run(tier),
         "C18" => props::c18::run(tier),
+        "C20" => props::c20::run(tier),
         _ => {
             eprintln!("unknown property {id}");
             2
